@@ -248,8 +248,10 @@ def r_img_addcks(model, rep):
     S = P(cx.selfname)
     t, v = P(cx.params[2]), P(cx.params[3])
     cks = ("attr", S, "checksums")
-    present = ("cmp", ("in",), (t, cks))
     st = [ev for ev in cx.events if ev.kind == "store" and T.root_of(ev.target) == S]
+    if len(st) == 1 and st[0].target[0] == "sub" and st[0].target[1] == cks and T.contains(st[0].target[2], lambda x: x == t):
+        t = st[0].target[2]      # the key actually used (the type argument, possibly normalised)
+    present = ("cmp", ("in",), (t, cks))
     ok = len(st) == 1 and st[0].target == ("sub", cks, t) and st[0].value == v \
         and facts.canon_guards(st[0].guards) == frozenset([facts.canon_guard((present, False))])
     rep.ob("R-IMG-ADDCKS", "Image.add_checksum:no-overwrite", ok, site=cx.site(f.node),
@@ -301,6 +303,8 @@ def check_c16(model, rep, tier):
     r_cks_add(model, rep)
     r_checksums_schema(model, rep)
     r_cks_reader(model, rep)
+    from .roundtrip import r_fix_path_identity
+    r_fix_path_identity(model, rep, classes=("treeinfo.Checksums",))
     r_img_addcks(model, rep)
     r_val_dead(model, rep)
     r_val_strength_rows(model, rep, [r for r in VAL_OBLIGATIONS if r[0] == "treeinfo.Checksums"], rule_id="R-VAL-STRENGTH")
